@@ -7,6 +7,7 @@ CONSTANTS
 INIT Init
 NEXT Next
 INVARIANT VariantSane
+INVARIANT PerAssetNotMerged
 INVARIANT AddBothSides
 INVARIANT OneSideBreaks
 INVARIANT CertAlgebra
